@@ -83,8 +83,14 @@ pub fn exec(a: &[&str]) -> String {
             };
             let oth = DnaString::from_bytes(&oth_bases);
             let nd = if d.len() == oth.len() { ndiffs(&d, &oth).to_string() } else { "-".into() };
+            // the iterator through its adaptors: count, nth to the last base, skip, step_by, last
+            let n = d.len();
+            let ob = |o: Option<u8>| o.map(|x| x.to_string()).unwrap_or("-".into());
+            let it = format!("{}:{}:{}:{}:{}:{}", d.iter().count(), ob(if n > 0 { d.iter().nth(n - 1) } else { d.iter().nth(0) }),
+                show_digits(&d.iter().skip(n / 2).collect::<Vec<u8>>()), show_digits(&d.iter().step_by(3).collect::<Vec<u8>>()),
+                ob(d.iter().last()), ob(d.iter().nth(n)));
             format!(
-                "{}|bytes={} ascii={} disp={} rev={} rc={} eqc={} hashc={} cmpc={} cmpo={} eqo={} nd={}",
+                "{}|bytes={} ascii={} disp={} rev={} rc={} eqc={} hashc={} cmpc={} cmpo={} eqo={} nd={} it={}",
                 tr.join(";"),
                 show_digits(&bytes),
                 txt(&d.to_ascii_vec()),
@@ -96,7 +102,8 @@ pub fn exec(a: &[&str]) -> String {
                 ord(d.cmp(&canon)),
                 ord(d.cmp(&oth)),
                 (d == oth) as u8,
-                nd
+                nd,
+                it
             )
         }
         "pset" => {
